@@ -694,6 +694,8 @@ func rulesC12(c *Ctx) {
 
 	c.Import("R-C12-6", "the client derives the Mcp-Param-* headers of a tools/call from the tool definitions it has cached: a list_changed notification invalidates that cache before the user's handler runs, so definitions fetched from within the handler are the ones later calls use", "C18", "R-C18-5", func(k string) bool { return strings.HasPrefix(k, "callToolChangedHandler") })
 
+	c.Import("R-C12-8", "the cached tool definitions the Mcp-Param-* headers are derived from are not evicted wholesale by the expiry of one page", "C18", "R-C18-6", func(k string) bool { return strings.HasPrefix(k, "methodCache:") })
+
 	c.Rule("R-C12-5", "the client puts the per-request metadata (from which the mirrored headers are derived and which the server's gate demands) on every request it sends on the 2026-07-28 protocol: under usesNewProtocol() no handleSend is reachable without injectRequestMeta, except for a closed table of methods", func() {
 		hs := c.FnObj(pM, "", "handleSend")
 		inj := c.FnObj(pM, "", "injectRequestMeta")
